@@ -2097,12 +2097,16 @@ impl Ord for OwnedTerm {
                     })
                 }
                 (OwnedTerm::Map(a), OwnedTerm::Map(b)) => a.len().cmp(&b.len()).then_with(|| {
-                    for ((k1, v1), (k2, v2)) in a.iter().zip(b.iter()) {
+                    // Erlang compares all keys (in key order) before any value
+                    for (k1, k2) in a.keys().zip(b.keys()) {
                         match k1.cmp(k2) {
-                            Ordering::Equal => match v1.cmp(v2) {
-                                Ordering::Equal => continue,
-                                other => return other,
-                            },
+                            Ordering::Equal => continue,
+                            other => return other,
+                        }
+                    }
+                    for (v1, v2) in a.values().zip(b.values()) {
+                        match v1.cmp(v2) {
+                            Ordering::Equal => continue,
                             other => return other,
                         }
                     }
@@ -2615,7 +2619,10 @@ pub(crate) fn compare_magnitude_float(digits: &[u8], f: f64) -> Ordering {
     if f.is_infinite() {
         return Ordering::Less;
     }
-    let significant = digits.iter().rposition(|&d| d != 0).map_or(0, |pos| pos + 1);
+    let significant = digits
+        .iter()
+        .rposition(|&d| d != 0)
+        .map_or(0, |pos| pos + 1);
     let digits = &digits[..significant];
 
     // f == mantissa * 2^exponent with an integral mantissa
